@@ -278,6 +278,22 @@ def _tr_sym(node):
     raise ExtractError("run_sympify: integrand of sympy.integrate not translated (line %d): %s" % (getattr(node, "lineno", 0), ast.unparse(node)[:90]))
 
 
+def _is_reject_guard(fn, call):
+    """`call` is the (possibly negated) whole test of an `if` whose body only raises: a guard that may REJECT the integral
+    (the numerical path is then used) but cannot alter the value that reaches `eq`"""
+    if not isinstance(call, ast.Call):
+        return False
+    for m in ast.walk(fn):
+        if isinstance(m, ast.If) and not m.orelse and len(m.body) == 1 and isinstance(m.body[0], ast.Raise):
+            tests = m.test.values if isinstance(m.test, ast.BoolOp) and isinstance(m.test.op, ast.Or) else [m.test]
+            for t in tests:                       # `if A or not B: raise`: every disjunct only rejects
+                if isinstance(t, ast.UnaryOp) and isinstance(t.op, ast.Not):
+                    t = t.operand
+                if t is call:
+                    return True
+    return False
+
+
 def run_sympify(fn):
     """-> dict(integrand=(lean, line)).  Fail closed on anything but
            <R> = sympy.integrate(<integrand over eq>, x)   [inside `if try_integration: try: with time_limit(tmax):`]
@@ -316,7 +332,7 @@ def run_sympify(fn):
         if isinstance(n, ast.Name) and n.id == res and isinstance(n.ctx, ast.Load):
             par = [m for m in ast.walk(fn) if any(c is n for c in ast.iter_child_nodes(m))][0]
             ok = (isinstance(par, ast.Assign) and par in eq_assigns) or \
-                 (isinstance(par, ast.Attribute) and par.attr == "has")
+                 (isinstance(par, ast.Attribute) and par.attr == "has") or _is_reject_guard(fn, par)
             if not ok:
                 raise ExtractError("run_sympify: the integral %s is used in an unrecognised way (line %d)" % (res, n.lineno))
     rets = [n for n in ast.walk(fn) if isinstance(n, ast.Return)]
